@@ -163,7 +163,7 @@ func (tw *TimingWheel) Stop() {
 }
 
 func (tw *TimingWheel) drainAll(fn func(key, value any)) {
-	runner := threading.NewTaskRunner(drainWorkers)
+	var tasks []timingTask
 	for _, slot := range tw.slots {
 		for e := slot.Front(); e != nil; {
 			task := e.Value.(*timingEntry)
@@ -172,12 +172,31 @@ func (tw *TimingWheel) drainAll(fn func(key, value any)) {
 			e = next
 			if !task.removed {
 				tw.timers.Del(task.key)
-				runner.Schedule(func() {
-					fn(task.key, task.value)
+				tasks = append(tasks, timingTask{
+					key:   task.key,
+					value: task.value,
 				})
 			}
 		}
 	}
+
+	if len(tasks) == 0 {
+		return
+	}
+
+	// fn must not run under the control of the wheel's own goroutine: fn may call
+	// SetTimer/MoveTimer/RemoveTimer on this wheel (the cache cleaner re-arms failed tasks),
+	// which only this goroutine can serve. Waiting here for a free worker while the workers
+	// wait for the wheel would block both forever.
+	go func() {
+		runner := threading.NewTaskRunner(drainWorkers)
+		for i := range tasks {
+			task := tasks[i]
+			runner.Schedule(func() {
+				fn(task.key, task.value)
+			})
+		}
+	}()
 }
 
 func (tw *TimingWheel) getPositionAndCircle(d time.Duration) (pos, circle int) {
